@@ -152,6 +152,18 @@ Proof.
     rewrite Hf. cbv beta iota. cbn [n_sweep]. rewrite <- J2, <- J3. repeat split; reflexivity.
 Qed.
 
+(* with the repaired structure (node semantic id of sweep nodes folded in) the semantic id also determines
+   every node semantic id, hence (C05_node_semantic_id_discriminates, C05_sweep_block_fields) every sweep field *)
+Theorem C05_full : sem_includes_sweep = true -> forall U5 H, hash_ok U5 -> hash_ok H ->
+  forall c1 c2, forallb node_ok c1 = true -> forallb node_ok c2 = true ->
+  semantic_id U5 H c1 = semantic_id U5 H c2 ->
+  (sem_fields c1 = sem_fields c2 /\ node_sems H c1 = node_sems H c2) \/ Collision U5 \/ Collision H.
+Proof.
+  intros Hs U5 H HU HH c1 c2 W1 W2 E.
+  destruct (semantic_id_full U5 H HU HH gen_sem_fields Hs c1 c2 E) as [[Eu En]|C]; auto.
+  destruct (uuids_fields U5 gen_canon_fields c1 c2 0 W1 W2 Eu) as [Ef|C]; auto.
+Qed.
+
 (* everything except the sweep fields is discriminated by the semantic id (C05_semantic_id_discriminates);
    the sweep fields are discriminated by the node semantic id and the config id: *)
 Theorem C05_partial : forall U5 H, hash_ok U5 -> hash_ok H ->
@@ -195,5 +207,6 @@ Print Assumptions C05_sweep_block_fields.
 Print Assumptions C05_config_id_discriminates.
 Print Assumptions mut_sweep_expression.
 Print Assumptions mut_sweep_variable_domain.
+Print Assumptions C05_full.
 Print Assumptions C05_refuted_when.
 Print Assumptions C05_partial.
